@@ -58,6 +58,15 @@ class MDPPEnv(DPPEnv):
             generator = MDPPGenerator(**generator_params)
         self.generator = generator
 
+        # DPPEnv.__init__ copied these from its own default generator: take them from ours
+        self.max_decaps = self.generator.max_decaps
+        self.size = self.generator.size
+        self.raw_pdn = self.generator.raw_pdn
+        self.decap = self.generator.decap
+        self.freq = self.generator.freq
+        self.num_freq = self.generator.num_freq
+        self.data_dir = self.generator.data_dir
+
         assert reward_type in [
             "minmax",
             "meansum",
